@@ -6,7 +6,9 @@
    [p_ntmpl p] = the number of templates of probe p = number of rows of its templates.npy (an input of the merge);
    [wf ps] = at least one probe, every probe has >= 1 spike, its four per-spike arrays have equal length, ids >= 0,
    and every spike template id is < p_ntmpl (templates without spikes, trailing or not, are allowed);
-   [coff_spec ps k] = sum over the probes before k of (largest cluster id + 1);
+   [clu_ids p] = the cluster ids probe p's directory names: those carried by its spikes and those listed in its
+   cluster_*.tsv files (a cluster without spikes may have a metadata row);
+   [coff_spec ps k] = sum over the probes before k of (largest of clu_ids + 1);
    [toff_spec ps k] = sum over the probes before k of p_ntmpl -- the row of the merged templates.npy where
    write_templates (C12) puts template 0 of probe k (linked in PV.C12.Props.C12_spike_template_rows);
    [lt3] = strictly increasing in (time, probe index, index within the probe), lexicographically. *)
@@ -77,11 +79,13 @@ Proof. exact (@thm_payload). Qed.
 Print Assumptions C11_payload.
 
 (* the id intervals [offset_j, offset_j + max_j] and [offset_k, ...] of two probes j < k are disjoint (the first ends
-   strictly below the start of the second) and contain the shifted ids of their probe; clusters and templates; for
+   strictly below the start of the second) and contain the shifted ids of their probe; clusters and templates; the whole
+   id range [coff_j, coff_j + n_ids (clu_ids pj)) of probe j (with or without spikes) ends at or below coff_k; for
    templates the whole row range [toff_j, toff_j + p_ntmpl_j) of probe j (spiking or not) ends at or below toff_k *)
 Theorem C11_disjoint : forall (A V F : Type) (ps : list (probe A V F)), Forall wf_probe ps ->
   forall j k pj pk, (j < k)%nat -> nth_error ps j = Some pj -> nth_error ps k = Some pk ->
   (coff_spec ps j + zmaxl (p_clu pj) < coff_spec ps k /\
+   coff_spec ps j + n_ids (clu_ids pj) <= coff_spec ps k /\
    (forall c, In c (p_clu pj) -> coff_spec ps j <= c + coff_spec ps j <= coff_spec ps j + zmaxl (p_clu pj)) /\
    (forall c, In c (p_clu pk) -> coff_spec ps k <= c + coff_spec ps k)) /\
   (toff_spec ps j + zmaxl (p_tmpl pj) < toff_spec ps k /\
@@ -103,13 +107,14 @@ Proof. exact (@thm_no_collision). Qed.
 Print Assumptions C11_no_collision.
 
 (* cluster_probes has one entry per merged cluster id 0 .. total-1; entry (c + offset_k) is k for every id c in
-   0 .. max_k of probe k (used or not), and every entry arises that way (so c - offset is the original id) *)
+   0 .. max_k of probe k (max_k over the ids of its spikes and of its metadata rows; used or not), and every entry
+   arises that way (so c - offset is the original id) *)
 Theorem C11_cluster_probes : forall (A V F : Type) (ps : list (probe A V F)), wf ps ->
   exists m, merge ps = Some m /\ Z.of_nat (length (m_cprobes m)) = coff_spec ps (length ps) /\
-    (forall k p c, nth_error ps k = Some p -> 0 <= c <= zmaxl (p_clu p) ->
+    (forall k p c, nth_error ps k = Some p -> 0 <= c <= zmaxl (clu_ids p) ->
                    nth_error (m_cprobes m) (Z.to_nat (c + coff_spec ps k)) = Some (Z.of_nat k)) /\
     (forall c k', nth_error (m_cprobes m) c = Some k' ->
-       exists k p, k' = Z.of_nat k /\ nth_error ps k = Some p /\ 0 <= Z.of_nat c - coff_spec ps k <= zmaxl (p_clu p)).
+       exists k p, k' = Z.of_nat k /\ nth_error ps k = Some p /\ 0 <= Z.of_nat c - coff_spec ps k <= zmaxl (clu_ids p)).
 Proof. exact (@thm_cluster_probes). Qed.
 Print Assumptions C11_cluster_probes.
 
@@ -151,7 +156,7 @@ Theorem C11_checker_disjoint_sound : forall (A V F : Type) (ps : list (probe A V
   forall j k pj pk cj ck tj tk, (j < k)%nat -> nth_error ps j = Some pj -> nth_error ps k = Some pk ->
   nth_error (o_coffs o) j = Some cj -> nth_error (o_coffs o) k = Some ck ->
   nth_error (o_toffs o) j = Some tj -> nth_error (o_toffs o) k = Some tk ->
-  (cj + n_ids (p_clu pj) <= ck \/ ck + n_ids (p_clu pk) <= cj) /\
+  (cj + n_ids (clu_ids pj) <= ck \/ ck + n_ids (clu_ids pk) <= cj) /\
   (tj + p_ntmpl pj <= tk \/ tk + p_ntmpl pk <= tj).
 Proof. exact (@c_disjoint_sound). Qed.
 Print Assumptions C11_checker_disjoint_sound.
@@ -177,38 +182,55 @@ Example C11_ex_offsets : map (coff_spec ex_ps) [0; 1; 2; 3]%nat = [0; 5; 7; 11] 
 Proof. vm_compute. split; reflexivity. Qed.
 
 (* ---- renumbered per-cluster metadata ----
-   For each of the three TSV names f: when the ids listed in the probes' files lie in 0 .. max cluster id of their
-   probe (meta_in_range), the written table maps id + offset_k |-> the (last) value that probe k's file gives to id,
-   for every probe that has the file, and contains nothing else (Meta_spec); it is written iff some present file has a
-   row, its rows are strictly increasing in id, and its header is the header of one of the present files. *)
+   For each of the three TSV names f, whenever the ids listed in the probes' files are not negative: the written table
+   maps id + offset_k |-> the (last) value that probe k's file gives to id, for every probe that has the file -- also for
+   an id that no spike of the probe carries -- and contains nothing else (Meta_spec); it is written iff some present file
+   has a row, its rows are strictly increasing in id, and its header is the header of one of the present files.
+   (Before fix-c11c this needed meta_in_range: ids within 0 .. largest SPIKE cluster id.) *)
 Theorem C11_metadata : forall (A V F : Type) (ps : list (probe A V F)), wf ps ->
   exists m, merge ps = Some m /\ length (m_meta m) = n_meta_files /\
-    forall f, (f < n_meta_files)%nat -> meta_in_range f ps -> Meta_out f ps (nth f (m_meta m) None).
+    forall f, (f < n_meta_files)%nat -> meta_nonneg f ps -> Meta_out f ps (nth f (m_meta m) None).
 Proof. exact (@thm_metadata_merge). Qed.
 Print Assumptions C11_metadata.
 
-(* the range hypothesis is needed: a TSV row for an id above the probe's largest spike cluster id lands in the next
-   probe's interval and is overwritten / mis-attributed (probe 0: one cluster 0, its file also lists id 1) *)
+(* why the cluster count of a probe must cover the ids of its metadata rows (the defect repaired on fix-c11c).
+   Probe 0 has one spike cluster, 0, and its file also lists id 1 (a cluster without spikes); probe 1 has cluster 0.
+   The input violates meta_in_range.  With the offsets the unrepaired code registered -- [0; 1], counts from the spikes
+   alone -- write_cluster_data's table gives merged id 1 (which is cluster 0 of probe 1) the value 200 of probe 1 and
+   loses probe 0's row 101 (had probe 1 no file, id 1 would carry probe 0's 101 although cluster_probes[1] = 1): not
+   Meta_spec.  The repaired merge registers [0; 2] and its table satisfies Meta_spec. *)
 Definition ex_bad : list (probe Z Z Z) :=
   [ mkprobe [1] [10] [0] [0] 1 [Some (mkmeta 5 [(0, 100); (1, 101)]); None; None];
     mkprobe [2] [20] [0] [0] 1 [Some (mkmeta 5 [(0, 200)]); None; None] ].
-Theorem C11_metadata_needs_range : wf ex_bad /\ ~ meta_in_range 0 ex_bad /\
-  forall m, merge ex_bad = Some m -> ~ Meta_spec 0 ex_bad (nth 0 (m_meta m) None).
+Theorem C11_metadata_needs_range : wf ex_bad /\ ~ meta_in_range 0 ex_bad /\ meta_nonneg 0 ex_bad /\
+  meta_file 0 ex_bad [0; 1] = Some (mkmeta 5 [(0, 100); (1, 200)]) /\
+  ~ Meta_spec 0 ex_bad (meta_file 0 ex_bad [0; 1]) /\
+  exists m, merge ex_bad = Some m /\ m_coffs m = [0; 2] /\ m_clu m = [0; 2] /\ m_cprobes m = [0; 0; 1] /\
+            nth 0 (m_meta m) None = Some (mkmeta 5 [(0, 100); (1, 101); (2, 200)]) /\
+            Meta_spec 0 ex_bad (nth 0 (m_meta m) None).
 Proof.
-  split; [|split].
-  - split; [discriminate|]. repeat constructor; cbn; try discriminate; intros c H;
-      repeat (destruct H as [<-|H]; [lia|]); contradiction.
+  assert (W : wf ex_bad).
+  { split; [discriminate|]. repeat constructor; cbn; try discriminate; intros c H;
+      repeat (destruct H as [<-|H]; [lia|]); contradiction. }
+  assert (N : meta_nonneg 0 ex_bad).
+  { intros p mt kv Hp Hm Hkv. unfold meta_of in Hm. destruct Hp as [<-|[<-|[]]]; cbn in Hm; injection Hm as <-;
+      cbn in Hkv; repeat (destruct Hkv as [<-|Hkv]; [cbn; lia|]); contradiction. }
+  split; [exact W|]. split; [|split; [exact N|]]; [|split; [vm_compute; reflexivity|split]].
   - intros H. specialize (H (nth 0 ex_bad (mkprobe [] [] [] [] 0 [])) (mkmeta 5 [(0, 100); (1, 101)]) (1, 101)).
     cbn in H. assert (0 <= 1 <= 0) by (apply H; auto). lia.
-  - intros m Hm. vm_compute in Hm. injection Hm as <-. intros [Hf _].
+  - intros [Hf _].
     specialize (Hf 0%nat (nth 0 ex_bad (mkprobe [] [] [] [] 0 [])) (mkmeta 5 [(0, 100); (1, 101)]) 1 101 eq_refl eq_refl eq_refl).
     vm_compute in Hf. discriminate.
+  - destruct (thm_metadata_merge ex_bad W) as (m & Hm & _ & HM). exists m. split; [exact Hm|].
+    destruct (HM 0%nat ltac:(unfold n_meta_files; lia) N) as [HS _].
+    vm_compute in Hm. injection Hm as <-. do 4 (split; [reflexivity|]). exact HS.
 Qed.
 Print Assumptions C11_metadata_needs_range.
 
-Example C11_ex_meta_in_range : forall f, (f < 3)%nat -> meta_in_range f ex_ps.
+Example C11_ex_meta_in_range : forall f, (f < 3)%nat -> meta_in_range f ex_ps /\ meta_nonneg f ex_ps.
 Proof.
-  intros f Hf p mt kv Hp Hm Hkv. unfold meta_of in Hm.
+  intros f Hf. assert (G : meta_in_range f ex_ps); [|split; [exact G|intros p mt kv Hp Hm Hkv; apply (G p mt kv Hp Hm Hkv)]].
+  intros p mt kv Hp Hm Hkv. unfold meta_of in Hm.
   destruct Hp as [<-|[<-|[<-|[]]]]; destruct f as [|[|[|f]]]; try lia; cbn in Hm; try discriminate;
     injection Hm as <-; cbn in Hkv; repeat (destruct Hkv as [<-|Hkv]; [cbn; lia|]); contradiction.
 Qed.
